@@ -677,6 +677,10 @@ impl World {
         let binder: Arc<dyn UplinkBinder> = env.binder.clone();
         let receiver = self.receiver;
         env.rt.block_on(async {
+            let conn_timeout_ms = self.config.snapshot().conn_timeout_ms;
+            for conn in self.connections.iter_mut() {
+                conn.set_conn_timeout_ms(conn_timeout_ms);
+            }
             if let Err(err) = handle_housekeeping(
                 &mut self.connections,
                 &mut self.conn_io,
@@ -865,7 +869,7 @@ pub fn established(env: &mut Env, n: usize, config: DynamicConfig, now: u64) -> 
 // binding of the mirrored glue to the source
 
 /// Ordered shell-function calls per `select!` arm that the mirror implements.
-pub const GLUE_EXPECTED: [&str; 21] = [
+pub const GLUE_EXPECTED: [&str; 22] = [
     // initial housekeeping
     "handle_housekeeping",
     // client arm
@@ -875,6 +879,7 @@ pub const GLUE_EXPECTED: [&str; 21] = [
     "handle_uplink_packet",
     "drain_packet_queue",
     // housekeeping arm
+    "set_conn_timeout_ms",
     "handle_housekeeping",
     "classify",
     "tick_all",
@@ -913,6 +918,7 @@ pub fn glue_fingerprint() -> Result<Vec<String>, String> {
     let body = &text[start..end];
     let names = [
         "handle_housekeeping",
+        "set_conn_timeout_ms",
         "handle_srt_packet",
         "drain_packet_queue",
         "handle_uplink_packet",
@@ -988,4 +994,4 @@ pub fn glue_fingerprint() -> Result<Vec<String>, String> {
 }
 
 /// Token digest of the event-loop region of src/sender/mod.rs the mirror was written against.
-pub const GLUE_DIGEST: u64 = 0x316f_dd97_b618_8d60;
+pub const GLUE_DIGEST: u64 = 0x5cbe_616d_b2a6_97f1;
